@@ -63,10 +63,20 @@ WinSet == {92, 124, 47, 58, 63, 34, 42, 60, 62}        \* \|/:?"*<>
 UpperU(c) == IF c = EAC THEN 201 ELSE IF c = FWX THEN 65336 ELSE UpperC(c)
 LowerU(c) == LowerC(c)
 \* one character through PercentEncoder.quote (UTF-8 bytes; a non-ASCII character is escaped byte by byte or not at all)
+\* control characters: C0, DEL and C1 (U+0000..U+001F, U+007F..U+009F)
+IsCtl(c) == c <= 31 \/ c \in 127..159
 SafeChar(c, cfg) ==
   IF c < 128
-  THEN (IF (cfg.os = "unix" /\ c = 47) \/ (cfg.nc /\ c <= 31) \/ (cfg.os = "windows" /\ c \in WinSet) THEN PctByte(c) ELSE <<c>>)
-  ELSE (IF cfg.asc THEN LET bs == EncCp(c, "utf-8") IN Flat([i \in 1..Len(bs) |-> PctByte(bs[i])]) ELSE <<c>>)
+  THEN (IF (cfg.os = "unix" /\ c = 47) \/ (cfg.nc /\ IsCtl(c)) \/ (cfg.os = "windows" /\ c \in WinSet) THEN PctByte(c) ELSE <<c>>)
+  ELSE (IF cfg.asc \/ (cfg.nc /\ IsCtl(c))
+        THEN LET bs == EncCp(c, "utf-8") IN Flat([i \in 1..Len(bs) |-> PctByte(bs[i])]) ELSE <<c>>)
+
+RECURSIVE ByteLen(_)
+ByteLen(s) == IF Len(s) = 0 THEN 0 ELSE Len(EncCp(s[1], "utf-8")) + ByteLen(Tail(s))
+\* the longest prefix of s whose encoding has at most k octets
+RECURSIVE BytePrefix(_, _)
+BytePrefix(s, k) == IF Len(s) = 0 \/ Len(EncCp(s[1], "utf-8")) > k THEN <<>>
+                    ELSE <<s[1]>> \o BytePrefix(Tail(s), k - Len(EncCp(s[1], "utf-8")))
 
 SafeFilename(fn, cfg) ==
   LET n1 == IF fn = <<DOT>> THEN tE2E
@@ -78,8 +88,11 @@ SafeFilename(fn, cfg) ==
   ELSE IF tail /\ ~FixWinTail THEN [ok |-> FALSE]                        \* '{1:02X}'.format(.., str): ValueError
   ELSE
    LET n2 == IF tail THEN SubSeq(n1, 1, Len(n1) - 1) \o PctByte(n1[Len(n1)]) ELSE n1
-       n3 == IF cfg.ml > 0 /\ Len(n2) > cfg.ml
-             THEN Slice(n2, 1, IF cfg.ml > 8 THEN cfg.ml - 8 ELSE 0) \o [i \in 1..8 |-> WILD]
+       \* the length limit counts OCTETS of the encoded name (what the file system limits); the name is cut at a
+       \* character boundary
+       keep == IF cfg.ml > 8 THEN cfg.ml - 8 ELSE 0
+       n3 == IF cfg.ml > 0 /\ ByteLen(n2) > cfg.ml
+             THEN BytePrefix(n2, keep) \o [i \in 1..8 |-> WILD]
              ELSE n2
        n4 == IF cfg.cs = "lower" THEN [i \in 1..Len(n3) |-> LowerU(n3[i])]
              ELSE IF cfg.cs = "upper" THEN [i \in 1..Len(n3) |-> UpperU(n3[i])] ELSE n3
@@ -136,7 +149,7 @@ Contained(parts, os, nc) ==
   /\ \A i \in 1..Len(parts) :
        LET p == parts[i] IN
        /\ Len(p) > 0 /\ p # <<DOT>> /\ p # <<DOT, DOT>>
-       /\ \A j \in 1..Len(p) : p[j] \notin SepSet(os) /\ (nc => p[j] >= 32)
+       /\ \A j \in 1..Len(p) : p[j] \notin SepSet(os) /\ (nc => ~(p[j] <= 31 \/ p[j] \in 127..159))
 
 \* model path = real path, the digest characters being free (hex digits of either case)
 Matches(mp, rp) == /\ Len(mp) = Len(rp)
